@@ -803,6 +803,54 @@ def shrink(case, failing, budget=150):
 
 
 # ------------------------------------------------------------------ check
+PROBE_FUNCS = {'mean': np.mean, 'std': np.std, 'half-sum': lambda v: np.sum(v) / 2}
+
+
+def oracle_value_dtypes(case):
+    """'every stored metric equals the function applied to that cycle's samples' and 'cache on or off changes no result' for
+    sample arrays of integer / boolean / single-precision dtype and functions whose value is not an integer.  oracle only
+    (the model's metric values are integers).  returns [(site, detail, probe)]"""
+    fails = []
+    try:
+        Cs = [build(dict(case, cache=c)) for c in (1, 0)]
+    except Exception:                                                   # noqa - the constructor is the trace comparison's business
+        return fails
+    cv = np.asarray(Cs[0].cycle_vect).reshape(-1)
+    if cv.size == 0 or cv.max() < 0:
+        return fails
+    K = int(cv.max()) + 1
+    h = common.hashL(list(case['codes']))
+    base = np.array([((h >> (2 * (i % 30))) + 5 * i) % 11 - 4 for i in range(len(cv))])
+    for dt in ('int64', 'bool', 'float32', 'int16'):
+        vals = (base > 0) if dt == 'bool' else base.astype(dt)
+        for fname, fn in PROBE_FUNCS.items():
+            for mode in ('cycle', 'augmented'):
+                got = []
+                for C in Cs:
+                    try:
+                        C.compute_cycle_metric('probe', vals, fn, mode=mode)
+                        got.append(np.asarray(C.metrics['probe'], dtype=float).reshape(-1))
+                    except Exception as e:                              # noqa
+                        got.append('raised %s: %s' % (type(e).__name__, e))
+                probe = dict(dtype=dt, func=fname, mode=mode)
+                if isinstance(got[0], str) or isinstance(got[1], str):
+                    if isinstance(got[0], str) != isinstance(got[1], str):
+                        fails.append(('compute_cycle_metric', 'values of dtype %s, func %s, mode %s: cache on %s, cache off %s'
+                                      % (dt, fname, mode, got[0] if isinstance(got[0], str) else 'returned', got[1] if isinstance(got[1], str) else 'returned'), probe))
+                    continue
+                if got[0].shape != (K,) or not np.allclose(got[0], got[1], rtol=1e-6, atol=1e-9, equal_nan=True):
+                    fails.append(('compute_cycle_metric', 'values of dtype %s, func %s, mode %s: use_cache=True stores %s, use_cache=False stores %s'
+                                  % (dt, fname, mode, got[0].tolist(), got[1].tolist()), probe))
+                elif mode == 'cycle':
+                    exp = np.array([float(fn(vals[cv == k])) for k in range(K)])
+                    if not np.allclose(got[0], exp, rtol=1e-6, atol=1e-9, equal_nan=True):
+                        fails.append(('compute_cycle_metric', 'values of dtype %s, func %s: stored %s, the function applied to each cycle\'s samples gives %s'
+                                      % (dt, fname, got[0].tolist(), exp.tolist()), probe))
+                if fails:
+                    return fails
+    return fails
+
+
 def case_input(case, with_cache=False):
     inp = dict(codes=case['codes'], cfg=case.get('cfg', 0), ops=case['ops'])
     if case.get('grid'):
@@ -903,7 +951,8 @@ def run(ctx):
                 'on that value, dips below it, cycles ending on it: there the model\'s thresholds are derived from the truth tables of '
                 'the implementation\'s own float comparisons over the 9 grid values (asserted to depend on the integer codes only), '
                 'so the correspondence is exact and sound for that family too (code 6 is "not above the trough"), and the oracle '
-                'applies the documented STRICT test phase > 1.5*pi.  '
+                'applies the documented STRICT test phase > 1.5*pi.  Value dtypes (oracle only): on the first containers of the run a metric is computed from int64 / bool / float32 / int16 '
+                'sample arrays with mean / std / half-sum in both modes: cache on must equal cache off and, in cycle mode, the function of each cycle\'s samples.  '
                 'non-trivial = container with >= 2 cycles and a successful selection or an augmented-mode metric')
     ctx.notes += [
         "augmented mode: 'that cycle's samples' is read as the container's own get_inds_of_cycle(ii, mode='augmented') "
@@ -960,6 +1009,16 @@ def run(ctx):
             if site not in reported and len(reported) < 6:
                 reported.add(site)
                 report_violation(ctx, c, [(site, detail)] + [f for f in fails if f[0] != site])
+    # value dtypes: integer / boolean / single-precision sample arrays with non-integer-valued functions (oracle only)
+    nprobe = 0
+    for c in cases[len(corpus):len(corpus) + (40 if ctx.quick() else 1000)]:
+        nprobe += 1
+        for site, detail, probe in oracle_value_dtypes(c)[:1]:
+            if 'dtype-probe' not in reported:
+                reported.add('dtype-probe')
+                ctx.problem('impl-violation', site, detail, input=dict(case_input(c), ops=[], dtype_probe=probe), tags=dict(mode='dtype-probe'))
+    ctx.extra['value_dtype_probes'] = nprobe
+    ctx.hist['value-dtype-probe-containers'] += nprobe
     if mism and not reported:
         c, r, m = mism[0]
 
@@ -997,6 +1056,10 @@ def replay(rec):
         k = next((i for i in range(min(len(r), len(m))) if r[i] != m[i]), None)
         print('implementation and model traces %s' % ('agree' if r == m else 'differ at position %s' % k))
         return r != m
+    if 'dtype_probe' in case:
+        f = oracle_value_dtypes(case)
+        print(f[:1])
+        return bool(f)
     fails, _ = oracle_case(dict(case, cache=1))
     for f in fails[:5]:
         print(f)
